@@ -23,6 +23,8 @@ macro_rules! dispatch {
             "C08" => $f(props::c08::C08, $($arg),*),
             "C09" => $f(props::c09::C09, $($arg),*),
             "C10" => $f(props::c10::C10, $($arg),*),
+            "C11" => $f(props::c11::C11, $($arg),*),
+            "C14" => $f(props::c14::C14, $($arg),*),
             "C15" => $f(props::c15::C15, $($arg),*),
             "C16" => $f(props::c16::C16, $($arg),*),
             "C17" => $f(props::c17::C17, $($arg),*),
